@@ -8,14 +8,14 @@ import Sml.Lemmas.C12
   state `d`:
 
     * `look _ init`        : `c` ends with the first `init` bytes of the start sequence,
-    * `normal`             : `c = pre ++ START ++ stuff dd` and the encoder's run counter after the
-                             logical payload `dd` (buffer ++ withheld zeros) is 0,
-    * `escChars n`         : `c = pre ++ START ++ stuff dd ++ 1b^n`,
-    * `escPayload step q`  : `c = pre ++ START ++ stuff dd ++ 1b^4 ++ q[..step]`,
+    * `normal`             : `c = pre ++ START ++ stuff ddS` and the encoder's run counter after the
+                             logical payload `ddS` (buffer ++ withheld zeros) is 0,
+    * `escChars n`         : `c = pre ++ START ++ stuff ddS ++ 1b^n`,
+    * `escPayload step q`  : `c = pre ++ START ++ stuff ddS ++ 1b^4 ++ q[..step]`,
     * `done`               : `c = pre ++ frame buf`.
 
   In all "inside a frame" states `raw_msg_len` is the number of bytes since `pre`, and the running
-  digest covers `START ++ stuff dd` plus the `0x1b` bytes of a pending escape.
+  digest covers `START ++ stuff ddS` plus the `0x1b` bytes of a pending escape.
   `sinv_pushByte` is the step lemma.  Then the front-ends: histories (`sound_run`), streams
   (`sound_pushAll`), `decode` (`sound_decodeAll_go`), `DecoderReader` (`Rdr.sound_calls`),
   `DecodeIterator` (`DecIter.sound_take`); and, together with the tiling invariant of
@@ -99,17 +99,17 @@ namespace Dec
 
 /-! ### "inside a frame" -/
 
-/-- `c = pre ++ START ++ stuff dd ++ tail`, `raw` counts from `pre`, the digest covers
-`START ++ stuff dd ++ ctail` -/
-def FR (c dd : List UInt8) (raw : Nat) (crc : UInt16) (tail ctail : List UInt8) : Prop :=
-  ∃ pre, c = pre ++ Spec.START ++ stuff dd ++ tail ∧
-    raw = 8 + (stuff dd).length + tail.length ∧
-    crc = crcUpdate startCrc (stuff dd ++ ctail)
+/-- `c = pre ++ START ++ stuff ddS ++ tail`, `raw` counts from `pre`, the digest covers
+`START ++ stuff ddS ++ ctail` -/
+def FR (c ddS : List UInt8) (raw : Nat) (crc : UInt16) (tail ctail : List UInt8) : Prop :=
+  ∃ pre, c = pre ++ Spec.START ++ stuff ddS ++ tail ∧
+    raw = 8 + (stuff ddS).length + tail.length ∧
+    crc = crcUpdate startCrc (stuff ddS ++ ctail)
 
 /-- a byte that is fed to the digest -/
-theorem FR.snoc {c dd : List UInt8} {raw : Nat} {crc : UInt16} {tail ctail : List UInt8}
-    (h : FR c dd raw crc tail ctail) (x : UInt8) :
-    FR (c ++ [x]) dd (raw + 1) (crcByte crc x) (tail ++ [x]) (ctail ++ [x]) := by
+theorem FR.snoc {c ddS : List UInt8} {raw : Nat} {crc : UInt16} {tail ctail : List UInt8}
+    (h : FR c ddS raw crc tail ctail) (x : UInt8) :
+    FR (c ++ [x]) ddS (raw + 1) (crcByte crc x) (tail ++ [x]) (ctail ++ [x]) := by
   obtain ⟨pre, h1, h2, h3⟩ := h
   refine ⟨pre, ?_, ?_, ?_⟩
   · rw [h1]; simp
@@ -117,25 +117,25 @@ theorem FR.snoc {c dd : List UInt8} {raw : Nat} {crc : UInt16} {tail ctail : Lis
   · rw [h3, ← crcUpdate_singleton, ← crcUpdate_append]; simp
 
 /-- a byte that is not fed to the digest (yet) -/
-theorem FR.snoc' {c dd : List UInt8} {raw : Nat} {crc : UInt16} {tail ctail : List UInt8}
-    (h : FR c dd raw crc tail ctail) (x : UInt8) :
-    FR (c ++ [x]) dd (raw + 1) crc (tail ++ [x]) ctail := by
+theorem FR.snoc' {c ddS : List UInt8} {raw : Nat} {crc : UInt16} {tail ctail : List UInt8}
+    (h : FR c ddS raw crc tail ctail) (x : UInt8) :
+    FR (c ++ [x]) ddS (raw + 1) crc (tail ++ [x]) ctail := by
   obtain ⟨pre, h1, h2, h3⟩ := h
   refine ⟨pre, ?_, ?_, h3⟩
   · rw [h1]; simp
   · rw [h2]; simp; omega
 
 /-- bytes fed to the digest later -/
-theorem FR.feed {c dd : List UInt8} {raw : Nat} {crc : UInt16} {tail ctail : List UInt8}
-    (h : FR c dd raw crc tail ctail) (l : List UInt8) :
-    FR c dd raw (crcUpdate crc l) tail (ctail ++ l) := by
+theorem FR.feed {c ddS : List UInt8} {raw : Nat} {crc : UInt16} {tail ctail : List UInt8}
+    (h : FR c ddS raw crc tail ctail) (l : List UInt8) :
+    FR c ddS raw (crcUpdate crc l) tail (ctail ++ l) := by
   obtain ⟨pre, h1, h2, h3⟩ := h
   refine ⟨pre, h1, h2, ?_⟩
   rw [h3, ← crcUpdate_append]; simp
 
 /-- the first part `t1` of the tail is recognised as payload -/
-theorem FR.move {c dd dd' : List UInt8} {raw : Nat} {crc : UInt16} {t1 t2 c2 : List UInt8}
-    (hs : stuff dd' = stuff dd ++ t1) (h : FR c dd raw crc (t1 ++ t2) (t1 ++ c2)) :
+theorem FR.move {c ddS dd' : List UInt8} {raw : Nat} {crc : UInt16} {t1 t2 c2 : List UInt8}
+    (hs : stuff dd' = stuff ddS ++ t1) (h : FR c ddS raw crc (t1 ++ t2) (t1 ++ c2)) :
     FR c dd' raw crc t2 c2 := by
   obtain ⟨pre, h1, h2, h3⟩ := h
   refine ⟨pre, ?_, ?_, ?_⟩
@@ -147,14 +147,14 @@ theorem FR.move {c dd dd' : List UInt8} {raw : Nat} {crc : UInt16} {t1 t2 c2 : L
 
 def SI (c : List UInt8) (d : Dec) : DState → Prop
   | .look _ init => init ≤ 7 ∧ d.buf.rdata = [] ∧ d.zc = 0 ∧ ∃ pre, c = pre ++ Spec.START.take init
-  | .normal => FR c d.dd d.raw d.crc [] [] ∧ ctr 0 d.dd = 0
+  | .normal => FR c d.ddS d.raw d.crc [] [] ∧ ctr 0 d.ddS = 0
   | .escChars n =>
     1 ≤ n ∧ n ≤ 3 ∧
-      FR c d.dd d.raw d.crc (List.replicate n 0x1b) (List.replicate n 0x1b) ∧ ctr 0 d.dd = 0
+      FR c d.ddS d.raw d.crc (List.replicate n 0x1b) (List.replicate n 0x1b) ∧ ctr 0 d.ddS = 0
   | .escPayload step q =>
     step ≤ 3 ∧
-      FR c d.dd d.raw d.crc (List.replicate 4 0x1b ++ q.toList.take step) (List.replicate 4 0x1b) ∧
-      (ctr 0 d.dd = 0 ∨ (q.a = 0x1a ∧ 1 ≤ step))
+      FR c d.ddS d.raw d.crc (List.replicate 4 0x1b ++ q.toList.take step) (List.replicate 4 0x1b) ∧
+      (ctr 0 d.ddS = 0 ∨ (q.a = 0x1a ∧ 1 ≤ step))
   | .done => ∃ pre, c = pre ++ frame d.buf.data ∧ d.raw = (frame d.buf.data).length
 
 /-- the soundness invariant: `c` = bytes consumed since the last `reset` / `finalize` -/
@@ -188,9 +188,9 @@ theorem spost_look {c : List UInt8} {d : Dec} {disc init : Nat} (hst : d.st = .l
     rw [if_neg (by omega)]
     split
     · next h8 =>
-      have hdd : Dec.dd { raw := 8, crc := startCrc, st := .normal, zc := d.zc, buf := d.buf }
+      have hdd : Dec.ddS { raw := 8, crc := startCrc, st := .normal, zc := d.zc, buf := d.buf }
           = [] := by
-        simp [dd, Buf.data, hb, hz]
+        simp [ddS, Buf.data, hb, hz]
       have hn : SInv (c ++ [x])
           { raw := 8, crc := startCrc, st := .normal, zc := d.zc, buf := d.buf } := by
         refine ⟨⟨pre, ?_, ?_, ?_⟩, ?_⟩
@@ -236,13 +236,13 @@ theorem spost_normal {c : List UInt8} {d : Dec} (hst : d.st = .normal)
     apply afterPush_cases (pushData_ok _ x)
     · intro d' hp
       obtain ⟨p1, p2, p3, p4⟩ := hp
-      have p4' : d'.dd = d.dd ++ [x] := p4
-      obtain ⟨s1, s2⟩ := Spec.stuff_snoc_of_ne hx d.dd
+      have p4' : d'.ddS = d.ddS ++ [x] := p4
+      obtain ⟨s1, s2⟩ := Spec.stuff_snoc_of_ne hx d.ddS
       show SI (c ++ [x]) d' d'.st
       rw [p3]
       show SI (c ++ [x]) d' d.st
       rw [hst]
-      show FR (c ++ [x]) d'.dd d'.raw d'.crc [] [] ∧ ctr 0 d'.dd = 0
+      show FR (c ++ [x]) d'.ddS d'.raw d'.crc [] [] ∧ ctr 0 d'.ddS = 0
       rw [p1, p2, p4']
       exact ⟨FR.move (t2 := []) (c2 := []) s1 (by simpa using hf.snoc x), s2⟩
     · exact spost_oom _ _
@@ -263,9 +263,9 @@ theorem spost_escChars {c : List UInt8} {d : Dec} {n : Nat} (hst : d.st = .escCh
       · intro d'' hp'
         obtain ⟨p1, p2, _, p4⟩ := hp
         obtain ⟨q1, q2, _, q4⟩ := hp'
-        have p4' : d'.dd = d.dd ++ List.replicate n 0x1b := p4
+        have p4' : d'.ddS = d.ddS ++ List.replicate n 0x1b := p4
         obtain ⟨s1, s2⟩ := Spec.stuff_run_ne hx hctr h3
-        show FR (c ++ [x]) d''.dd d''.raw d''.crc [] [] ∧ ctr 0 d''.dd = 0
+        show FR (c ++ [x]) d''.ddS d''.raw d''.crc [] [] ∧ ctr 0 d''.ddS = 0
         rw [q1, q2, q4, p1, p2, p4']
         exact ⟨FR.move (t2 := []) (c2 := []) s1 (by simpa using hf.snoc x), s2⟩
       · exact spost_oom _ _
@@ -278,7 +278,7 @@ theorem spost_escChars {c : List UInt8} {d : Dec} {n : Nat} (hst : d.st = .escCh
     split
     · next h3' =>
       subst h3'
-      have hs' : FR (c ++ [0x1b]) d.dd (d.raw + 1) (crcByte d.crc 0x1b)
+      have hs' : FR (c ++ [0x1b]) d.ddS (d.raw + 1) (crcByte d.crc 0x1b)
           (List.replicate 4 0x1b ++ Quad.zero.toList.take 0) (List.replicate 4 0x1b) := by
         simpa using hs
       exact ⟨by omega, hs', Or.inl hctr⟩
@@ -300,7 +300,7 @@ theorem ugt3 (p : UInt8) (h : ¬ p > 3) : p.toNat ≤ 3 := by
 
 /-- the end sequence `1a pad crc crc` -/
 theorem spost_pushEnd {c : List UInt8} {d : Dec} {q : Quad}
-    (hf : FR c d.dd d.raw d.crc (List.replicate 4 0x1b ++ q.toList) (List.replicate 4 0x1b))
+    (hf : FR c d.ddS d.raw d.crc (List.replicate 4 0x1b ++ q.toList) (List.replicate 4 0x1b))
     (ha : q.a = 0x1a) : SPost c (pushEnd d q) := by
   unfold pushEnd
   dsimp only
@@ -320,13 +320,13 @@ theorem spost_pushEnd {c : List UInt8} {d : Dec} {q : Quad}
       have f5 : d3.buf.data = d.buf.data ++ List.replicate (d.zc - q.b.toNat) 0 := f5
       obtain ⟨pre, c1, c2, c3⟩ := hf
       -- the payload and the padding
-      have hdd : d.dd = d3.buf.data ++ List.replicate q.b.toNat 0 := by
+      have hdd : d.ddS = d3.buf.data ++ List.replicate q.b.toNat 0 := by
         rw [f5, List.append_assoc, List.replicate_append_replicate]
         have : d.zc - q.b.toNat + q.b.toNat = d.zc := by omega
         rw [this]; rfl
-      have hs : stuff d.dd = stuff d3.buf.data ++ List.replicate q.b.toNat 0 := by
+      have hs : stuff d.ddS = stuff d3.buf.data ++ List.replicate q.b.toNat 0 := by
         rw [hdd, Spec.stuff_zeros]
-      have hlen : (stuff d.dd).length = (stuff d3.buf.data).length + q.b.toNat := by
+      have hlen : (stuff d.ddS).length = (stuff d3.buf.data).length + q.b.toNat := by
         rw [hs]; simp
       have hpad : padLen (Spec.START ++ stuff d3.buf.data).length = q.b.toNat := by
         simp only [List.length_append, Spec.length_START, Spec.padLen]
@@ -351,24 +351,24 @@ theorem spost_pushEnd {c : List UInt8} {d : Dec} {q : Quad}
 
 /-- the fourth payload byte of an escape sequence -/
 theorem spost_escComplete {c : List UInt8} {d : Dec} {q : Quad}
-    (hf : FR c d.dd d.raw d.crc (List.replicate 4 0x1b ++ q.toList) (List.replicate 4 0x1b))
-    (hctr : ctr 0 d.dd = 0 ∨ q.a = 0x1a) : SPost c (pushEscComplete d q) := by
+    (hf : FR c d.ddS d.raw d.crc (List.replicate 4 0x1b ++ q.toList) (List.replicate 4 0x1b))
+    (hctr : ctr 0 d.ddS = 0 ∨ q.a = 0x1a) : SPost c (pushEscComplete d q) := by
   unfold pushEscComplete
   dsimp only
   split
   · next hq =>
     -- literal escape
     subst hq
-    have hctr : ctr 0 d.dd = 0 := by
+    have hctr : ctr 0 d.ddS = 0 := by
       rcases hctr with h | h
       · exact h
       · exact absurd h (by decide)
     apply afterPush_cases (pushList_ok _ _)
     · intro d' hp
       obtain ⟨p1, p2, _, p4⟩ := hp
-      have p4' : d'.dd = d.dd ++ List.replicate 4 0x1b := p4
+      have p4' : d'.ddS = d.ddS ++ List.replicate 4 0x1b := p4
       obtain ⟨s1, s2⟩ := Spec.stuff_four hctr
-      show FR c d'.dd d'.raw d'.crc [] [] ∧ ctr 0 d'.dd = 0
+      show FR c d'.ddS d'.raw d'.crc [] [] ∧ ctr 0 d'.ddS = 0
       rw [p1, p2, p4']
       refine ⟨FR.move (t2 := []) (c2 := []) s1 ?_, s2⟩
       have := hf.feed (List.replicate 4 0x1b)
@@ -382,14 +382,14 @@ theorem spost_escComplete {c : List UInt8} {d : Dec} {q : Quad}
         obtain ⟨_, _, c2, _⟩ := hf
         simp at c2; omega)]
       obtain ⟨pre, c1, _, _⟩ := hf
-      refine ⟨⟨pre ++ Spec.START ++ stuff d.dd, ?_, ?_, ?_⟩, rfl⟩
-      · rw [c1]; simp [Quad.toList, Spec.START, dd, Buf.clear, Buf.data]
-      · simp [dd, Buf.clear, Buf.data]
-      · simp [dd, Buf.clear, Buf.data]
+      refine ⟨⟨pre ++ Spec.START ++ stuff d.ddS, ?_, ?_, ?_⟩, rfl⟩
+      · rw [c1]; simp [Quad.toList, Spec.START, ddS, Buf.clear, Buf.data]
+      · simp [ddS, Buf.clear, Buf.data]
+      · simp [ddS, Buf.clear, Buf.data]
     · split
       · next ha => exact spost_pushEnd hf ha
       · next hq1 hq2 ha =>
-        have hctr : ctr 0 d.dd = 0 := by
+        have hctr : ctr 0 d.ddS = 0 := by
           rcases hctr with h | h
           · exact h
           · exact absurd h ha
@@ -403,12 +403,12 @@ theorem spost_escComplete {c : List UInt8} {d : Dec} {q : Quad}
           apply afterPush_cases (pushRep_ok _ k _)
           · intro d' hp
             obtain ⟨p1, p2, _, p4⟩ := hp
-            have p4' : d'.dd = d.dd ++ List.replicate k 0x1b := p4
+            have p4' : d'.ddS = d.ddS ++ List.replicate k 0x1b := p4
             have s1 := Spec.stuff_few hctr (show k ≤ 3 by omega)
             show 4 - k ≤ 3 ∧
-              FR c d'.dd d'.raw d'.crc
+              FR c d'.ddS d'.raw d'.crc
                 (List.replicate 4 0x1b ++ (q.shift k).toList.take (4 - k)) (List.replicate 4 0x1b) ∧
-              (ctr 0 d'.dd = 0 ∨ ((q.shift k).a = 0x1a ∧ 1 ≤ 4 - k))
+              (ctr 0 d'.ddS = 0 ∨ ((q.shift k).a = 0x1a ∧ 1 ≤ 4 - k))
             rw [p1, p2, p4']
             have hf' := hf.feed (q.toList.take k)
             rcases q with ⟨qa, qb, qc, qd⟩
